@@ -208,6 +208,8 @@ func (i *interpreter) runPath(entry *ssa.Function, prefix []int) (res PathResult
 	c := i.ctx
 	i.resetPath()
 	c.beginPath(prefix)
+	i.initSched()
+	defer i.killGoroutines()
 	defer func() {
 		res.Decisions = len(c.trace)
 		res.Steps = c.steps
